@@ -128,5 +128,19 @@ theorem goGet1_eq (h : HMap) : goGet1 h authKey = ((HMap.get h authKey).getD [])
   unfold goGet1
   rw [canonicalKey_authKey]
 
+/-! ### the CONNECT head: second pass of the connect list -/
+
+theorem copyOver_nil (d : HMap) : copyOver d [] = d := rfl
+
+theorem copyOver_single (d : HMap) (k : Bytes) (vs : List Bytes) : copyOver d [(k, vs)] = HMap.put d k vs := rfl
+
+theorem goAdd_nil (n v : Bytes) : goAdd [] n v = [(canonicalKey n, [v])] := rfl
+
+theorem goSet_nil (n v : Bytes) : goSet [] n v = [(canonicalKey n, [v])] := rfl
+
+theorem goDel_nil (n : Bytes) : goDel [] n = [] := rfl
+
+theorem renameCase_nil (n : Bytes) : renameCase [] n = [] := rfl
+
 end C16
 end FwdVerif
